@@ -41,6 +41,11 @@ private theorem beq_bytes {a b : Bytes} : (a == b) = true ↔ a = b := by simp
 private theorem rootOf_ne {t : T Bytes} (h : t ≠ .empty) : rootOf c Ht t = hashT c Ht [] t := by
   cases t <;> simp_all [rootOf]
 
+private theorem take_take_append (k sk : List Bool) (n : Nat) (h : n ≤ k.length) :
+    (k.take n ++ sk).take n = k.take n := by
+  rw [List.take_append_of_le_length (by simp; omega)]
+  simp [List.take_take]
+
 private theorem sib_len (ap : List (Sib Bytes)) : (sibHashes c ap).length = ap.length := by simp [sibHashes]
 
 /-- **Completeness, inclusion**: the proof the node produces for a present key verifies. -/
@@ -74,11 +79,18 @@ theorem complete_excl (t : T Bytes) (k : List Bool) (cn : Canon Ht t) (hk : k.le
       cases t with
       | empty => simp [rootOf]
       | leaf sk sv =>
-        simp only [pr, merkleProof] at e1
-        split at e1 <;> simp_all
+        exfalso
+        have hne : sk ≠ k := by
+          intro e; rw [e] at g; simp [Trie.get] at g
+        simp [pr, merkleProof, hne] at e1
       | node l r =>
-        match k, hk with
-        | b :: ks, _ => cases b <;> simp [pr, merkleProof] at this
+        exfalso
+        cases k with
+        | nil =>
+          have : Ht = 0 := by simpa using hk.symm
+          subst this
+          simp [Canon] at cn
+        | cons b ks => cases b <;> simp [pr, merkleProof] at this
     · have hap' : (sibHashes c pr.ap).isEmpty = false := by simpa using hap
       simp only [hap', Bool.false_eq_true, ↓reduceIte, beq_bytes]
       have hne : t ≠ .empty := by
@@ -92,19 +104,22 @@ theorem complete_excl (t : T Bytes) (k : List Bool) (cn : Canon Ht t) (hk : k.le
     have hpk : k.take pr.ap.length ++ sk ≠ k := by
       intro e
       apply hne
-      have := List.take_append_drop pr.ap.length k
-      rw [← this] at e
-      exact List.append_cancel_left e
+      have e' : k.take pr.ap.length ++ sk = k.take pr.ap.length ++ k.drop pr.ap.length := by
+        rw [List.take_append_drop]; exact e
+      exact List.append_cancel_left e'
     simp only [hpk, ↓reduceIte, Bool.and_eq_true, beq_iff_eq, sib_len]
     constructor
     · simp only [verifyInclusion, beq_bytes, rootOf_ne hne', sib_len]
       rw [path_hash (c := c) t Ht [] k, hb]
       simp only [List.nil_append]
       apply vUp_take
-      · simp [sib_len, List.take_append_of_le_length, hk, hlen]
-      · simp [sib_len, hk]; exact hlen
-      · simp [sib_len, hk]; omega
-    · simp [List.take_append_of_le_length, hk, hlen]
+      · simp only [List.length_reverse, sib_len]
+        exact (take_take_append k sk _ (by rw [hk]; exact hlen)).symm
+      · simp only [List.length_reverse, sib_len, hk]; exact hlen
+      · simp only [List.length_reverse, sib_len, List.length_append, List.length_take, hk, pr]
+        have := hlen
+        omega
+    · exact (take_take_append k sk _ (by rw [hk]; exact hlen)).symm
 
 /-- **Soundness, inclusion**: an accepted inclusion proof for `(k, v)` means the trie holds
 `k ↦ v` — or the hash function is exhibited broken on the strings hashed by the two sides.
